@@ -766,7 +766,7 @@ func (nt *net) apply(op string) string {
 			b, e = strconv.Atoi(m["b"])
 			ok = e == nil && b >= 0
 		}
-		if i < 0 || e1 != nil || e2 != nil || r < 0 || peer < 0 || (t != "pv" && t != "pc") || !ok {
+		if i < 0 || e1 != nil || e2 != nil || r < 0 || r > 1000 || peer < 0 || (t != "pv" && t != "pc") || !ok {
 			return "bad-op"
 		}
 		if peer == 0 || peer > len(nt.w.powers) || nt.isCorrect(peer-1) {
